@@ -224,6 +224,9 @@ def rule_y4(ctx, funcs: List[Func]) -> None:
     """standardize_enol removes elements from the index list it is given: every caller
     must hand over a fresh list, otherwise the caller's group table is corrupted."""
     ctx.rule("C20-Y4", "functions that mutate a list argument are only called with a fresh copy", 0)
+    if getattr(ctx, "_c20_canonical_first", False):
+        ctx.note("C20-Y4: not needed on this tree - the input is canonicalised before the first query (Y13), so an edited group list can change later calls (C06-B4/B7) but not composition or f(f(x)) == f(x)")
+        return
     prog = ctx.prog
     MUT = ("remove", "pop", "append", "extend", "insert", "clear", "sort", "reverse")
     n = 0
@@ -311,6 +314,9 @@ def rule_y5(ctx, funcs: List[Func]) -> None:
     convertible groups behind an unconvertible one (result depends on atom order,
     a second application converts more)."""
     ctx.rule("C20-Y5", "the scan over recognised groups stops early only under a test that the rewrite changed the SMILES", 0)
+    if getattr(ctx, "_c20_canonical_first", False):
+        ctx.note("C20-Y5: not needed on this tree - the input is canonicalised before the first query (Y13): whichever group decides, a second application sees the same spelling and the same groups")
+        return
     n = 0
     for f in funcs:
         for loop in [x for x in own_nodes(f.node) if isinstance(x, ast.For)]:
@@ -488,7 +494,7 @@ def rule_y10(ctx, funcs: List[Func]) -> None:
         cfg = None
         for c in [x for x in own_nodes(f.node) if isinstance(x, ast.Call) and isinstance(x.func, ast.Attribute) and x.func.attr == "SetNumExplicitHs" and x.args]:
             a = c.args[0]
-            if not (isinstance(a, ast.Constant) and isinstance(a.value, int) and a.value > 0):
+            if not (isinstance(a, ast.Constant) and isinstance(a.value, int) and a.value >= 0):
                 continue
             n += 1
             cfg = cfg or CFG(f.node)
@@ -501,9 +507,106 @@ def rule_y10(ctx, funcs: List[Func]) -> None:
                         tested = True
             ctx.instance("C20-Y10", "%s: %s after a test of %s's hydrogens/neighbours: %s" % (f.name, unparse(c), recv, tested), f.loc(c), ok=tested)
             if not tested:
-                ctx.finding("C20-Y10", "%s.%s:absolute-hydrogen-count" % (f.qualname.split(".")[-2], f.name), f.loc(c), "%s sets the explicit hydrogen count of %s to %d without having tested how many hydrogens / neighbours the atom has: an oxygen that carries no hydrogen (metal alkoxide O[Na]) ends with one hydrogen more than the input" % (f.name, recv, a.value))
+                ctx.finding("C20-Y10", "%s.%s:absolute-hydrogen-count:%d" % (f.qualname.split(".")[-2], f.name, a.value), f.loc(c), "%s sets the explicit hydrogen count of %s to %d without having tested how many hydrogens the atom has: an oxygen with another count (metal alkoxide O[Na], oxonium [OH2+]) ends with more or fewer hydrogens than the input" % (f.name, recv, a.value))
     if n == 0:
         ctx.note("C20-Y10: no absolute positive hydrogen count is set on this tree")
+
+
+def rule_y11(ctx, funcs: List[Func]) -> None:
+    """Sanitisation is the standardiser's only guard against an impossible rewrite (charged oxygen, wrong valence): the
+    rewrite functions return the input when it fails.  `SanitizeMol(mol, catchErrors=True)` does not raise - it returns
+    the failed operation - so its result has to be tested; called as a statement it lets every invalid molecule through."""
+    ctx.rule("C20-Y11", "a failed sanitisation is noticed: SanitizeMol raises (no catchErrors) or its result is tested", 1)
+    for f in funcs:
+        for c in [x for x in own_nodes(f.node) if isinstance(x, ast.Call) and unparse(x.func).split(".")[-1] == "SanitizeMol"]:
+            ce = next((k.value for k in c.keywords if k.arg == "catchErrors"), c.args[2] if len(c.args) > 2 else None)
+            silent = ce is not None and not (isinstance(ce, ast.Constant) and ce.value is False)
+            used = not isinstance(getattr(c, "_parent", None), ast.Expr)
+            in_try = False
+            cur = getattr(c, "_parent", None)
+            while cur is not None and cur is not f.node:
+                if isinstance(cur, ast.Try) and any(c in ast.walk(b) for b in cur.body):
+                    in_try = True
+                cur = getattr(cur, "_parent", None)
+            ok = (not silent and in_try) or (silent and used)
+            ctx.instance("C20-Y11", "%s: %s (raises: %s, inside try: %s, result used: %s)" % (f.name, unparse(c)[:50], not silent, in_try, used), f.loc(c), ok=ok)
+            if not ok:
+                ctx.finding("C20-Y11", "%s.%s:sanitisation-failure-unnoticed" % (f.qualname.split(".")[-2], f.name), f.loc(c), "%s calls %s %s: a rewrite that RDKit rejects (C=C[O-] -> CC=[O-]) is serialised and returned instead of the input" % (f.name, unparse(c)[:50], "with catchErrors and ignores the result" if silent else "outside any handler"))
+
+
+def rule_y12(ctx, funcs: List[Func]) -> None:
+    """The standardiser object lives as long as the Balancer.  If it keeps a table of earlier results, an entry that the
+    current call has just stored must still be there when the call reads it: evicting (`clear` / `pop` / `del`) inside the
+    loop that fills the table, and reading the table by key after or later in that loop, raises KeyError for a valid input
+    once the table is full."""
+    ctx.rule("C20-Y12", "no result table of the standardiser is evicted between storing and reading an entry in one call", 0)
+    n = 0
+    for f in funcs:
+        for loop in [x for x in own_nodes(f.node) if isinstance(x, (ast.For, ast.While))]:
+            stores, evicts = {}, {}
+            for x in ast.walk(loop):
+                if isinstance(x, ast.Assign):
+                    for t in x.targets:
+                        if isinstance(t, ast.Subscript) and isinstance(t.value, ast.Attribute) and isinstance(t.value.value, ast.Name) and t.value.value.id == "self":
+                            stores.setdefault(t.value.attr, x)
+                if isinstance(x, ast.Call) and isinstance(x.func, ast.Attribute) and x.func.attr in ("clear", "pop", "popitem") and isinstance(x.func.value, ast.Attribute) and isinstance(x.func.value.value, ast.Name) and x.func.value.value.id == "self":
+                    evicts.setdefault(x.func.value.attr, x)
+                if isinstance(x, ast.Delete):
+                    for t in x.targets:
+                        if isinstance(t, ast.Subscript) and isinstance(t.value, ast.Attribute) and isinstance(t.value.value, ast.Name) and t.value.value.id == "self":
+                            evicts.setdefault(t.value.attr, x)
+            for attr in sorted(set(stores) & set(evicts)):
+                n += 1
+                reads = [x for x in own_nodes(f.node) if isinstance(x, ast.Subscript) and isinstance(x.ctx, ast.Load) and isinstance(x.value, ast.Attribute) and x.value.attr == attr and isinstance(x.value.value, ast.Name) and x.value.value.id == "self"]
+                ok = not reads
+                ctx.instance("C20-Y12", "%s: self.%s is filled and evicted in one loop; %d keyed read(s) afterwards" % (f.name, attr, len(reads)), f.loc(evicts[attr]), ok=ok)
+                if not ok:
+                    ctx.finding("C20-Y12", "%s.%s:evicted-before-read:%s" % (f.qualname.split(".")[-2], f.name, attr), f.loc(evicts[attr]), "self.%s is emptied (%s) inside the loop that stores this call's entries and is read by key afterwards (%s): when the table fills up in the middle of a mixture the earlier entries of the same call are gone and a valid input raises KeyError" % (attr, unparse(evicts[attr])[:40], unparse(reads[0])[:40]))
+    if n == 0:
+        ctx.note("C20-Y12: the standardiser keeps no result table that is evicted on this tree")
+
+
+def rule_y13(ctx, funcs: List[Func]) -> None:
+    """Idempotence.  The loop stops when no recognised group can be rewritten *in the SMILES as it is spelled*, and the
+    result is returned canonicalised.  Recognition depends on the spelling (an explicit `[H]` atom hides an enol), so a
+    second application - which sees the canonical spelling - can rewrite more, unless the first query already ran on the
+    canonical spelling: the input is canonicalised before the first functional-group query."""
+    ctx.rule("C20-Y13", "the input is canonicalised before the first functional-group query", 1)
+    n = 0
+    for f in funcs:
+        if len(f.params) < 2:
+            continue
+        smi = f.params[1]
+        def is_query(c):
+            return isinstance(c, ast.Call) and isinstance(c.func, ast.Attribute) and c.func.attr == "get" and "query" in unparse(c.func.value) and bool(c.args)
+
+        queries = [c for c in own_nodes(f.node) if is_query(c)]
+        # a query made by a method of the class that this one hands the SMILES to
+        for c in own_nodes(f.node):
+            if isinstance(c, ast.Call) and isinstance(c.func, ast.Attribute) and isinstance(c.func.value, ast.Name) and c.func.value.id == f.params[0] and c.args:
+                m = next((g for g in funcs if g.name == c.func.attr and g is not f), None)
+                if m is not None and len(m.params) >= 2 and any(is_query(x) and isinstance(x.args[0], ast.Name) and x.args[0].id == m.params[1] for x in own_nodes(m.node)):
+                    queries.append(c)
+        rets = [r for r in own_nodes(f.node) if isinstance(r, ast.Return) and isinstance(r.value, ast.Call) and unparse(r.value.func).split(".")[-1] in SMILES_FUNCS]
+        if not (queries and rets):
+            continue
+        n += 1
+        cfg = CFG(f.node)
+        canon = [a for a in own_nodes(f.node) if isinstance(a, ast.Assign) and isinstance(a.value, ast.Call) and unparse(a.value.func).split(".")[-1] in ("CanonSmiles", "MolToSmiles", "canon_smiles") and any(isinstance(t, ast.Name) for t in a.targets)]
+        ok = False
+        for q in queries:
+            arg = q.args[0]
+            qn = cfg.node_of(q)
+            for a in canon:
+                an = cfg.node_of(a)
+                tnames = {t.id for t in a.targets if isinstance(t, ast.Name)}
+                if an is not None and qn is not None and cfg.dominates(an, qn) and isinstance(arg, ast.Name) and (arg.id in tnames or any(isinstance(v, ast.Name) and v.id in tnames for _s, v, _i in assignments_to(f, arg.id))):
+                    ok = True
+        ctx._c20_canonical_first = getattr(ctx, "_c20_canonical_first", True) and ok
+        ctx.instance("C20-Y13", "%s: the first query runs on a canonicalised SMILES: %s" % (f.name, ok), f.loc(queries[0]), ok=ok)
+        if not ok:
+            ctx.finding("C20-Y13", "%s.%s:query-on-given-spelling" % (f.qualname.split(".")[-2], f.name), f.loc(queries[0]), "%s queries the functional groups of the SMILES as given and returns the canonical spelling of the result: a group hidden by the given spelling (C(=C)O[H]) is rewritten only by a second application, so standardising twice differs from standardising once" % f.name)
+    ctx.require(n >= 1, "no method of the standardiser both queries functional groups and returns a SMILES")
 
 
 def check(ctx) -> None:
@@ -513,6 +616,7 @@ def check(ctx) -> None:
     ctx.require(len(funcs) >= 3, "MoleculeStandardizer lost its methods")
     if ctx.tier == "thorough":
         extra = [g for g in prog.package_functions() if g.cls is not cls and g.parent is None]
+        rule_y13(ctx, funcs)
         rule_y1(ctx, funcs + extra)
         rule_y2(ctx, funcs)
         rule_y3(ctx, funcs + extra)
@@ -523,7 +627,10 @@ def check(ctx) -> None:
         rule_y8(ctx, funcs)
         rule_y9(ctx, funcs)
         rule_y10(ctx, funcs)
+        rule_y11(ctx, funcs)
+        rule_y12(ctx, funcs)
     else:
+        rule_y13(ctx, funcs)
         rule_y1(ctx, funcs)
         rule_y2(ctx, funcs)
         rule_y3(ctx, funcs)
@@ -534,3 +641,5 @@ def check(ctx) -> None:
         rule_y8(ctx, funcs)
         rule_y9(ctx, funcs)
         rule_y10(ctx, funcs)
+        rule_y11(ctx, funcs)
+        rule_y12(ctx, funcs)
